@@ -17,6 +17,9 @@ Proof.
     try discriminate; try congruence; try reflexivity.
 Qed.
 
+Lemma eq_target_spec d' k : eq_target d' k = true <-> d_dig d' = k_dig k.
+Proof. unfold eq_target. apply N.eqb_eq. Qed.
+
 Lemma Neqb_spec (a c : N) : (a =? c) = true <-> a = c.
 Proof. apply N.eqb_eq. Qed.
 
@@ -492,11 +495,24 @@ Section Oci.
 
   Definition canon_desc (d : desc) : Prop := gk d = U (d_dig d).
 
-  Definition canon_op (o : op) : Prop :=
+  (* every descriptor of the operation is the universe's descriptor for its digest *)
+  Definition canon_op_all (o : op) : Prop :=
     match o with
     | Push d _ | Fetch d | Exists d | Tag d _ | Preds d | Delete d => canon_desc d
     | _ => True
     end.
+
+  (* what the sequential theorems need: content is pushed and deleted under its universe
+     descriptor.  Fetch, Exists, Tag and Predecessors may use any descriptor of the digest --
+     in particular the application/octet-stream one that Resolve(<digest>) hands out. *)
+  Definition canon_op (o : op) : Prop :=
+    match o with
+    | Push d _ | Delete d => canon_desc d
+    | _ => True
+    end.
+
+  Lemma canon_op_all_weaken o : canon_op_all o -> canon_op o.
+  Proof. destruct o; simpl; auto. Qed.
 
   Definition S_oci (blobs : list (N * blob)) : gkey -> option (list gkey) :=
     fun k => if gkey_eqb k (U (k_dig k)) then option_map (succ_of k) (get N.eqb (k_dig k) blobs) else None.
@@ -504,8 +520,7 @@ Section Oci.
   Record oci_inv (s : oci_store) : Prop := mkOI {
     oi_nodup : NoDup (map fst (o_blobs s));
     oi_graph : graph_inv (S_oci (o_blobs s)) (o_graph s);
-    oi_tags : forall r d, In (r, d) (r_index (o_res s)) ->
-                          canon_desc d /\ get N.eqb (d_dig d) (o_blobs s) <> None }.
+    oi_tags : forall r d, In (r, d) (r_index (o_res s)) -> get N.eqb (d_dig d) (o_blobs s) <> None }.
 
   Lemma oci_inv_init : oci_inv oci_init.
   Proof.
@@ -537,11 +552,11 @@ Section Oci.
     r_index (oci_untag_equal k snap s) = untag_fold k snap (r_index s).
   Proof.
     unfold oci_untag_equal, untag_fold. revert s. induction snap as [|e snap IH]; intro s; cbn [fold_left]; auto.
-    destruct (gkey_eqb (gk (snd e)) k); rewrite IH; [now rewrite r_index_untag | reflexivity].
+    destruct (eq_target (snd e) k); rewrite IH; [now rewrite r_index_untag | reflexivity].
   Qed.
 
   Lemma untag_equal_nomatch k snap s :
-    (forall e, In e snap -> gkey_eqb (gk (snd e)) k = false) -> oci_untag_equal k snap s = s.
+    (forall e, In e snap -> eq_target (snd e) k = false) -> oci_untag_equal k snap s = s.
   Proof.
     unfold oci_untag_equal. revert s. induction snap as [|e snap IH]; intros s H; cbn [fold_left]; auto.
     rewrite (H e) by now left. apply IH. intros e' He'. apply H. now right.
@@ -549,11 +564,11 @@ Section Oci.
 
   Lemma untag_fold_In k snap t r d :
     In (r, d) (untag_fold k snap t) ->
-    In (r, d) t /\ forall d', In (r, d') snap -> gkey_eqb (gk d') k = false.
+    In (r, d) t /\ forall d', In (r, d') snap -> eq_target d' k = false.
   Proof.
     unfold untag_fold. revert t. induction snap as [|[r0 d0] snap IH]; intros t H; cbn [fold_left fst snd] in H.
     - split; auto. simpl. tauto.
-    - destruct (gkey_eqb (gk d0) k) eqn:E.
+    - destruct (eq_target d0 k) eqn:E.
       + destruct (IH _ H) as [A B]. apply (In_del_inv ref_eqb ref_eqb_spec) in A as [A1 A2].
         split; auto. intros d' [C|C]; [congruence | auto].
       + destruct (IH _ H) as [A B]. split; auto. intros d' [C|C]; [congruence | auto].
@@ -582,9 +597,9 @@ Section Oci.
   Proof.
     intros [Hnd Hg Ht] Habs. split.
     - apply untag_equal_nomatch. intros [r d'] Hin. simpl.
-      destruct (gkey_eqb (gk d') (gk d)) eqn:E; auto. apply gkey_eqb_spec in E.
-      destruct (Ht _ _ Hin) as [_ B]. exfalso. apply B.
-      assert (d_dig d' = d_dig d) as -> by (unfold gk in E; congruence). exact Habs.
+      destruct (eq_target d' (gk d)) eqn:E; auto. apply eq_target_spec in E.
+      pose proof (Ht _ _ Hin) as B. exfalso. apply B.
+      assert (d_dig d' = d_dig d) as -> by exact E. exact Habs.
     - eapply g_remove_absent; [exact Hg|]. unfold S_oci. rewrite k_dig_gk, Habs.
       now destruct (gkey_eqb (gk d) (U (d_dig d))).
   Qed.
@@ -616,12 +631,12 @@ Section Oci.
   Qed.
 
   Lemma oci_inv_tag s d r :
-    oci_inv s -> canon_desc d -> get N.eqb (d_dig d) (o_blobs s) <> None ->
+    oci_inv s -> get N.eqb (d_dig d) (o_blobs s) <> None ->
     oci_inv (mkOci (o_blobs s) (oci_tag d r (o_res s)) (o_graph s)).
   Proof.
-    intros [Hnd Hg Ht] Hc E. constructor; cbn [o_blobs o_res o_graph]; [exact Hnd | exact Hg |].
+    intros [Hnd Hg Ht] E. constructor; cbn [o_blobs o_res o_graph]; [exact Hnd | exact Hg |].
     intros r' d' Hin. rewrite r_index_oci_tag in Hin.
-    apply In_spec_oci_tag in Hin as [->|Hin]; [split; assumption | apply (Ht _ _ Hin)].
+    apply In_spec_oci_tag in Hin as [->|Hin]; [assumption | apply (Ht _ _ Hin)].
   Qed.
 
   Lemma oci_inv_untag s r :
@@ -657,8 +672,8 @@ Section Oci.
         { destruct (is_manifest (d_mt d)); auto. rewrite r_index_oci_tag in Hin.
           eapply In_spec_oci_tag; eauto. }
         destruct Hin' as [->|Hin'].
-        * split; auto. rewrite (get_put_eq N.eqb Neqb_spec). discriminate.
-        * destruct (Ht _ _ Hin') as [A B]. split; auto. now apply get_put_mono.
+        * rewrite (get_put_eq N.eqb Neqb_spec). discriminate.
+        * apply get_put_mono. apply (Ht _ _ Hin').
     - destruct (get N.eqb (d_dig d) (o_blobs s)); assumption.
     - (* Tag *)
       assert (Hok : forall r0, get N.eqb (d_dig d) (o_blobs s) <> None ->
@@ -682,10 +697,10 @@ Section Oci.
         * eapply graph_inv_ext; [intro k; apply S_oci_del; exact Hc|]. now apply g_remove_inv.
         * intros r d' Hin. rewrite r_index_untag_equal in Hin.
           apply untag_fold_In in Hin as [A B]. specialize (B _ A).
-          destruct (Ht _ _ A) as [C D]. split; auto.
+          pose proof (Ht _ _ A) as D.
           rewrite (get_del_neq N.eqb Neqb_spec); auto.
-          intro Hd. rewrite (canon_same_dig _ _ C Hc Hd) in B.
-          rewrite (eqb_refl gkey_eqb gkey_eqb_spec) in B. discriminate.
+          intro Hd. assert (X : eq_target d' (gk d) = true) by (apply eq_target_spec; exact Hd).
+          congruence.
       + destruct (oci_delete_absent s d Hinv E) as [-> ->]. destruct s; assumption.
   Qed.
 
@@ -806,25 +821,25 @@ Lemma untag_fold_get_none k snap t r :
   get ref_eqb r t = None -> get ref_eqb r (untag_fold k snap t) = None.
 Proof.
   unfold untag_fold. revert t. induction snap as [|[r0 d0] snap IH]; intros t H; cbn [fold_left fst snd]; auto.
-  destruct (gkey_eqb (gk d0) k); auto. apply IH.
+  destruct (eq_target d0 k); auto. apply IH.
   destruct (eqb_dec ref_eqb ref_eqb_spec r r0) as [->|Hne].
   - apply (get_del_eq ref_eqb).
   - now rewrite (get_del_neq ref_eqb ref_eqb_spec).
 Qed.
 
 Lemma untag_fold_get_keep k snap t r :
-  (forall d', In (r, d') snap -> gkey_eqb (gk d') k = false) ->
+  (forall d', In (r, d') snap -> eq_target d' k = false) ->
   get ref_eqb r (untag_fold k snap t) = get ref_eqb r t.
 Proof.
   unfold untag_fold. revert t. induction snap as [|[r0 d0] snap IH]; intros t H; cbn [fold_left fst snd]; auto.
-  assert (H' : forall d', In (r, d') snap -> gkey_eqb (gk d') k = false) by (intros; apply H; now right).
-  destruct (gkey_eqb (gk d0) k) eqn:E; [|now apply IH].
+  assert (H' : forall d', In (r, d') snap -> eq_target d' k = false) by (intros; apply H; now right).
+  destruct (eq_target d0 k) eqn:E; [|now apply IH].
   rewrite IH by exact H'. apply (get_del_neq ref_eqb ref_eqb_spec).
   intro; subst r0. rewrite (H d0) in E by now left. discriminate.
 Qed.
 
 Lemma untag_fold_get_drop k snap t r d' :
-  In (r, d') snap -> gkey_eqb (gk d') k = true -> get ref_eqb r (untag_fold k snap t) = None.
+  In (r, d') snap -> eq_target d' k = true -> get ref_eqb r (untag_fold k snap t) = None.
 Proof.
   unfold untag_fold. revert t. induction snap as [|[r0 d0] snap IH]; intros t Hin Hm; [destruct Hin|].
   cbn [fold_left fst snd]. destruct Hin as [Heq|Hin].
@@ -856,7 +871,7 @@ Lemma untag_fold_order_free k snap t r :
 Proof.
   intros Hnd Hperm. unfold spec_untag_equal. rewrite get_filter_nodup by exact Hnd. simpl.
   destruct (get ref_eqb r t) as [d|] eqn:G.
-  - destruct (gkey_eqb (gk d) k) eqn:E; simpl.
+  - destruct (eq_target d k) eqn:E; simpl.
     + eapply untag_fold_get_drop; [|exact E]. apply Hperm. now apply (get_In ref_eqb ref_eqb_spec).
     + rewrite untag_fold_get_keep; auto. intros d' Hin. apply Hperm in Hin.
       rewrite (In_get ref_eqb ref_eqb_spec _ _ _ Hnd Hin) in G. congruence.
@@ -1006,7 +1021,7 @@ Qed.
 Lemma untag_fold_nodup k snap t : NoDup (map fst t) -> NoDup (map fst (untag_fold k snap t)).
 Proof.
   unfold untag_fold. revert t. induction snap as [|e snap IH]; intros t H; cbn [fold_left]; auto.
-  destruct (gkey_eqb (gk (snd e)) k); auto. apply IH. now apply NoDup_del.
+  destruct (eq_target (snd e) k); auto. apply IH. now apply NoDup_del.
 Qed.
 
 Lemma spec_oci_tag_nodup d r t : NoDup (map fst t) -> NoDup (map fst (spec_oci_tag d r t)).
@@ -1043,7 +1058,7 @@ Definition touches_name (n : N) (k : gkey) (o : op) : bool :=
   match o with
   | Tag _ (RName m) => m =? n
   | Untag (RName m) => m =? n
-  | Delete d => gkey_eqb (gk d) k
+  | Delete d => d_dig d =? k_dig k      (* Delete untags every reference to that digest *)
   | _ => false
   end.
 
@@ -1089,8 +1104,8 @@ Proof.
     assert (Hk : get ref_eqb (RName n) (untag_fold (gk d0) (r_index (o_res s)) (r_index (o_res s))) = Some d).
     { rewrite untag_fold_get_keep; auto. intros d' Hin.
       rewrite (In_get ref_eqb ref_eqb_spec _ _ _ Hnd Hin) in H. injection H as ->.
-      destruct (gkey_eqb (gk d) (gk d0)) eqn:E; auto. apply gkey_eqb_spec in E. rewrite E in Ht.
-      rewrite (eqb_refl gkey_eqb gkey_eqb_spec) in Ht. discriminate. }
+      destruct (eq_target d (gk d0)) eqn:E; auto. apply eq_target_spec in E.
+      rewrite k_dig_gk in *. rewrite <- E, N.eqb_refl in Ht. discriminate. }
     destruct (get N.eqb (d_dig d0) (o_blobs s)); cbn [fst o_res]; now rewrite r_index_untag_equal.
 Qed.
 
@@ -1132,7 +1147,7 @@ Lemma oci_delete_clears h1 d :
   let s' := fst (oci_step s (Delete d)) in
   snd (oci_step s' (Fetch d)) = OErr ENotFound /\
   snd (oci_step s' (Exists d)) = OBool false /\
-  forall n d', get ref_eqb (RName n) (r_index (o_res s)) = Some d' -> gk d' = gk d ->
+  forall n d', get ref_eqb (RName n) (r_index (o_res s)) = Some d' -> d_dig d' = d_dig d ->
                snd (oci_step s' (Resolve (RName n))) = OErr ENotFound.
 Proof.
   intros s Hok s'.
@@ -1142,7 +1157,7 @@ Proof.
   intros n d' Hg Hk. rewrite r_index_untag_equal.
   rewrite (untag_fold_get_drop (gk d) _ _ (RName n) d'); auto.
   - now apply (get_In ref_eqb ref_eqb_spec).
-  - rewrite Hk. apply (eqb_refl gkey_eqb gkey_eqb_spec).
+  - apply eq_target_spec. exact Hk.
 Qed.
 
 (* ================================================================== *)
